@@ -11,8 +11,8 @@ from h_doc import std_json, out_seq, tokens_of, describe, concretize_tree
 PROVIDERS = ['SectionExtract', 'SubSectionsExtract', 'ReferenceInlineSection', 'ReferenceInlineQuote', 'SectionToList', 'ListToSections', 'ListChangeType']
 
 class NoteGen(h_doc.Gen):
-    def __init__(self, hz, ctx, budget, max_nest, ref_urls):
-        h_doc.Gen.__init__(self, hz, ctx, budget, max_nest, kinds=('Para', 'Header', 'Ref', 'Bullet', 'Ordered', 'Quote'))
+    def __init__(self, hz, ctx, budget, max_nest, ref_urls, kinds=('Para', 'Header', 'Ref', 'Bullet', 'Ordered', 'Quote')):
+        h_doc.Gen.__init__(self, hz, ctx, budget, max_nest, kinds=kinds)
         self.ref_urls = ref_urls
         self.prev_lv = None
 
@@ -81,6 +81,23 @@ def refs_in(seq, out):
                 refs_in(it[1:], out)
     return out
 
+def item_list_path(seq, item_text, path=()):
+    """path of the list whose direct item has this text (first in pre-order)"""
+    for i, x in enumerate(seq):
+        if x[0] in ('Bullet', 'Ordered'):
+            for j, it in enumerate(x[1]):
+                if it[0][1] == item_text:
+                    return path + (i,)
+            for j, it in enumerate(x[1]):
+                r = item_list_path(list(it[1:]), item_text, path + (i, j))
+                if r is not None:
+                    return r
+        elif x[0] == 'Quote':
+            r = item_list_path(list(x[1]), item_text, path + (i,))
+            if r is not None:
+                return r
+    return None
+
 def flip_positions(a, b, path=()):
     """positions where two normal forms differ only by Bullet <-> Ordered; None if they differ otherwise"""
     if len(a) != len(b):
@@ -122,9 +139,20 @@ class ActionsHarness(Harness):
     tv_every = 29
     tv_phase = 0
 
-    def __init__(self, prog, tier='quick'):
+    def __init__(self, prog, tier='quick', mode='all'):
         Harness.__init__(self, prog, tier)
+        self.mode = mode
+        self.providers = PROVIDERS
+        self.kinds = ('Para', 'Header', 'Ref', 'Bullet', 'Ordered', 'Quote')
+        self.nest = 2
         self.budget = 3 if tier == 'quick' else 4
+        if mode == 'lists':
+            self.name = 'code_actions_lists'
+            self.providers = ['ListChangeType', 'ListToSections']
+            self.kinds = ('Para', 'Bullet', 'Ordered')
+            self.nest = 3
+            self.budget = 4 if tier == 'quick' else 6
+            self.required_covers = ('list-to-sections', 'list-change-type')
         self.bounds = {'blocks_in_note': self.budget, 'nesting': 2, 'target': 'every node of the note, every provider', 'referenced note': 'd/b (sub-directory, with its own reference), missing note zz'}
         self.ctx_pat = re.compile(r'as ActionContext>::(\w+)$')
         self.md_pat = re.compile(r"as NodeIter(<'_>)?>::(to_markdown|to_default_markdown)$")
@@ -169,31 +197,34 @@ class ActionsHarness(Harness):
 
     def run(self, ctx, ex):
         h = self.h
-        gen = NoteGen(self, ctx, self.budget, 2, ['d/b', 'zz'] if self.tier != 'quick' else ['d/b', 'zz'])
+        layout = ctx.choose(2) if self.mode == 'all' else 0          # 0: source in the root, referenced note in d/ ; 1: both in d/
+        src = 'a' if layout == 0 else 'd/a'
+        self.src = src
+        burl = 'd/b' if layout == 0 else 'b'
+        gen = NoteGen(self, ctx, self.budget, self.nest, [burl, 'zz'], self.kinds)
         an, av = gen.seq(0, min_len=1)
         bn = [{'k': 'Header', 't': 'B0', 'lv': 1}, {'k': 'Para', 't': 'B1'}, {'k': 'Ref', 't': 'B2', 'url': 'x'}]
         bv = [h.header(1, [h.istr('B0')], h.rng(0, 1)), h.para([h.istr('B1')], h.rng(2, 3)), h.para([h.ilink('x', 'B2')], h.rng(4, 5))]
-        g, gref = self.build(ctx, ex, [('a', av), ('d/b', bv)])
+        g, gref = self.build(ctx, ex, [(src, av), ('d/b', bv)])
         self.gref = gref
         self.opts = Cell(ex.call('<MarkdownOptions as Default>::default', [], 'model::config::MarkdownOptions'))
         self.rand_n = 0
         self.prog.overrides = {self.ctx_pat: self.stub_ctx, self.md_pat: self.stub_md, re.compile(r'sample_string'): self.stub_rand,
                                re.compile(r'thread_rng$'): lambda ex, c, args, dt: Opaque('ThreadRng')}
         nodes = h_doc.arena_std(g)
-        a_root = g.get('keys').d[('model::Key', 'a')][1].v
+        a_root = g.get('keys').d[('model::Key', src)][1].v
         b_root = g.get('keys').d[('model::Key', 'd/b')][1].v
         ids = [n['id'] for n in nodes if n['kind'] not in ('Empty', 'Document') and a_root < n['id'] < b_root]
-        pi = ctx.choose(len(PROVIDERS))
-        prov = PROVIDERS[pi]
+        prov = self.providers[ctx.choose(len(self.providers))]
         tid = ids[ctx.choose(len(ids))]
         tkind = nodes[tid]['kind']
-        ctx.input_desc = {'note': describe(an), 'provider': prov, 'target': '%s#%d %s' % (tkind, tid, nodes[tid].get('text') or '')}
+        ctx.input_desc = {'source': src, 'note': describe(an), 'provider': prov, 'target': '%s#%d %s' % (tkind, tid, nodes[tid].get('text') or '')}
         ctx.input_tree = an
-        ctx.target = (prov, tid)
+        ctx.target = (prov, tid, src)
         pv = Struct('router::server::action::' + prov, [], [])
         cx = Opaque('HarnessActionContext')
         info = {'input': ctx.input_desc}
-        orig_a = out_seq(self.project(ex, gref, 'a', ''), [])
+        orig_a = out_seq(self.project(ex, gref, src, 'd' if layout else ''), [])
         orig_b = out_seq(self.project(ex, gref, 'd/b', 'd'), [])
         act = ex.call('<%s as ActionProvider>::action::<Ctx>' % prov, [Ref(Cell(pv)), tid, cx])
         if act.vi == 0:
@@ -205,7 +236,7 @@ class ActionsHarness(Harness):
             return dict(info, offered=True)
         changes = self.read_changes(ch.f[0].v)
         info['changes'] = [(c[0], c[1]) for c in changes]
-        self.judge(prov, tid, nodes, an, orig_a, orig_b, changes, ctx.law, info, ctx)
+        self.judge(prov, tid, nodes, an, orig_a, orig_b, changes, ctx.law, info, ctx, src=src)
         if self.tv_pick(ctx.trace):
             ctx.tv = None
         return dict(info, offered=True)
@@ -232,8 +263,9 @@ class ActionsHarness(Harness):
         return False
 
     # ---- laws
-    def judge(self, prov, tid, nodes, an, orig_a, orig_b, changes, law, info, ctx=None):
-        existing = {'a', 'd/b'}
+    def judge(self, prov, tid, nodes, an, orig_a, orig_b, changes, law, info, ctx=None, src='a'):
+        existing = {src, 'd/b'}
+        in_d = src.startswith('d/')
         created = [k for op, k, _ in changes if op == 'Create']
         removed = [k for op, k, _ in changes if op == 'Remove']
         updates = {}
@@ -241,17 +273,17 @@ class ActionsHarness(Harness):
             if op == 'Update':
                 law('C09.one-update-per-note', k not in updates, dict(info, key=k))
                 updates[k] = out_seq(blocks, []) if isinstance(blocks, list) else None
-        law('C09.source-note-updated', 'a' in updates and updates['a'] is not None, info)
-        if 'a' not in updates or updates['a'] is None:
+        law('C09.source-note-updated', src in updates and updates[src] is not None, info)
+        if src not in updates or updates[src] is None:
             return
-        new_a = updates['a']
+        new_a = updates[src]
         tok_a, tok_b = flat_tokens(orig_a), flat_tokens(orig_b)
         all_out = [t for k in sorted(updates) for t in flat_tokens(updates[k] or [])]
         tnode = nodes[tid]
         ttext = tnode.get('text')
         if prov in ('SectionExtract', 'SubSectionsExtract'):
             law('C09.new-notes-have-fresh-distinct-names', len(set(created)) == len(created) and not (set(created) & existing) and 'zz' not in created, dict(info, created=created))
-            law('C09.every-created-note-gets-content', set(created) == set(updates) - {'a'}, dict(info, created=created, updated=sorted(updates)))
+            law('C09.every-created-note-gets-content', set(created) == set(updates) - {src}, dict(info, created=created, updated=sorted(updates)))
             # every piece of text once; each extracted heading additionally titles exactly one reference
             titles = []
             for k in created:
@@ -288,20 +320,24 @@ class ActionsHarness(Harness):
             tgt_tok = self.ref_token(an, tid, nodes)
             exp = sorted([t for t in tok_a if t != tgt_tok] + tok_b)
             law('C09.text-conserved-exactly-once', sorted(all_out) == exp, dict(info, expected=exp, actual=sorted(all_out)))
-            law('C09.reference-removed', (rkey, tgt_tok) not in refs_in(new_a, []) and ('d/b', tgt_tok) not in refs_in(new_a, []), dict(info, refs=refs_in(new_a, [])))
+            law('C09.reference-removed', (rkey, tgt_tok) not in refs_in(new_a, []) and ('d/b', tgt_tok) not in refs_in(new_a, []) and ('b', tgt_tok) not in refs_in(new_a, []), dict(info, refs=refs_in(new_a, [])))
             # links of the inlined content keep resolving from their new location (d/b's `x` is d/x)
             inl_refs = [u for u, t in refs_in(new_a, []) if t == 'B2']
-            law('C09.links-keep-resolving', inl_refs == ['d/x'], dict(info, inlined_reference_urls=inl_refs, expected=['d/x']))
+            exp_url = 'x' if in_d else 'd/x'
+            law('C09.links-keep-resolving', inl_refs == [exp_url], dict(info, inlined_reference_urls=inl_refs, expected=[exp_url]))
             if prov == 'ReferenceInlineQuote':
                 law('C09.inlined-as-quote', count_kind(new_a, 'Quote') == count_kind(orig_a, 'Quote') + 1, info)
             if ctx: ctx.cover('inline-section' if prov == 'ReferenceInlineSection' else 'inline-quote')
         else:
-            law('C10.only-the-note-is-rewritten', not created and not removed and set(updates) == {'a'}, dict(info, created=created, removed=removed))
+            law('C10.only-the-note-is-rewritten', not created and not removed and set(updates) == {src}, dict(info, created=created, removed=removed))
             law('C10.every-word-and-link-kept-in-order', flat_tokens(new_a) == tok_a, dict(info, expected=tok_a, actual=flat_tokens(new_a)))
             law('C10.links-kept', sorted(refs_in(new_a, [])) == sorted(refs_in(orig_a, [])), info)
             if prov == 'ListChangeType':
                 fl = flip_positions(orig_a, new_a)
                 law('C10.only-the-targeted-list-changes-type', fl is not None and len(fl) == 1, dict(info, flips=fl, before=orig_a, after=new_a))
+                want = item_list_path(orig_a, ttext)
+                if fl is not None and len(fl) == 1 and want is not None:
+                    law('C10.the-list-holding-the-cursor-item-changes-type', fl[0] == want, dict(info, flipped=fl[0], expected=want))
                 if ctx: ctx.cover('list-change-type')
             elif prov == 'ListToSections':
                 nl = count_kind(orig_a, 'Bullet') + count_kind(orig_a, 'Ordered')
@@ -326,8 +362,8 @@ class ActionsHarness(Harness):
                                'info': {'msg': res['detail'], 'where': res.get('where'), 'input': getattr(ctx, 'input_desc', None)}})
 
     def finish_violation(self, ctx, v):
-        prov, tid = getattr(ctx, 'target', (None, None))
-        v['input_tree'] = {'note': concretize_tree(getattr(ctx, 'input_tree', []), {}), 'provider': prov, 'target': tid}
+        prov, tid, src = getattr(ctx, 'target', (None, None, 'a'))
+        v['input_tree'] = {'note': concretize_tree(getattr(ctx, 'input_tree', []), {}), 'provider': prov, 'target': tid, 'source': src}
         role = 'general'
         msg = (v['info'].get('msg') or '') + (v['info'].get('why') or '')
         tree = getattr(ctx, 'input_tree', [])
@@ -340,9 +376,10 @@ class ActionsHarness(Harness):
 
     def replay(self, v, driver):
         d = v['input_tree']
-        script = [{'op': 'doc', 'key': 'a', 'blocks': d['note']},
+        src = d.get('source', 'a')
+        script = [{'op': 'doc', 'key': src, 'blocks': d['note']},
                   {'op': 'doc', 'key': 'd/b', 'blocks': [{'k': 'Header', 't': 'B0', 'lv': 1}, {'k': 'Para', 't': 'B1'}, {'k': 'Ref', 't': 'B2', 'url': 'x'}]},
-                  {'op': 'project', 'key': 'a'}, {'op': 'project', 'key': 'd/b'}, {'op': 'arena'},
+                  {'op': 'project', 'key': src}, {'op': 'project', 'key': 'd/b'}, {'op': 'arena'},
                   {'op': 'action', 'provider': d['provider'], 'target': d['target']}]
         res = driver.run(script)
         v['replay_script'], v['replay_result'] = script, res
@@ -366,6 +403,6 @@ class ActionsHarness(Harness):
             if ok is not True:
                 failed.append(name)
             return ok is True
-        self.judge(d['provider'], d['target'], res[4], d['note'], orig_a, orig_b, changes, law, {}, None)
+        self.judge(d['provider'], d['target'], res[4], d['note'], orig_a, orig_b, changes, law, {}, None, src=src)
         v['replay_verdict'] = 'native laws violated: %s' % failed
         return v['law'] in failed
